@@ -431,7 +431,8 @@ impl Run {
                         }
                     }
                     self.acc.outcome(if ok { "conforms+round-trips" } else { "violates" });
-                    if ok && !be && offset == 0 && self.sample_kinds.insert(meta.kind.to_string()) {
+                    // one sample per kind of type: its last (= least trivial) listed value
+                    if ok && !be && offset == 0 && vi + 1 == ops.expected.len() && self.sample_kinds.insert(meta.kind.to_string()) {
                         self.acc.sample(json!({
                             "type": meta.rust, "shape": meta.shape,
                             "definition": meta.definition, "signature": declared,
